@@ -54,8 +54,16 @@ def gen_cases(tier, rng):
             base.append(tc.case([s], state=st))
     for text, st in tc.bulk_inputs(tier):
         base.append(tc.case([text], state=st, last=tc.hx("s") if st != "-" else "~"))
-    for cp in tc.codepoints(tier):
-        base.append(tc.case([CP_DOC.replace("{c}", chr(cp))], pol=tc.RAW_POL))
+    cp_lines = set()
+    # (the full range is swept by C01 and C15 in the thorough tier; here every option set multiplies the cost)
+    cps = tc.codepoints("quick")
+    if tier == "thorough":
+        cps = sorted(set(cps) | set(tc.codepoints("thorough")[::5]))
+    for cp in cps:
+        l = tc.case([CP_DOC.replace("{c}", chr(cp))], pol=tc.RAW_POL)
+        base.append(l)
+        if cp not in tc.SPECIAL_CPS and cp >= 0x100:
+            cp_lines.add(l)      # one chunk / two halves only: one-character chunks of a 160-character document for the specials
     base += tc.random_soup(rng, 600 if tier == "quick" else 30000)
     crlf = tc.crlf_run_cover()
     base += crlf
@@ -65,7 +73,10 @@ def gen_cases(tier, rng):
         f = tc.fields(line)
         s = f["chunks"][0]
         chunkings = [[s]]
-        if s:
+        if s and (line in cp_lines or len(s) > 3000):
+            # (one-character chunks of a 70 000-character input cost 70 000 feed calls per option set)
+            chunkings.append([s[:len(s) // 2], s[len(s) // 2:]])
+        elif s:
             chunkings.append(tc.singletons(s))
             if line in crlf_set:
                 chunkings += tc.partitions2(s)[1:-1]
